@@ -34,6 +34,8 @@ TRUSTED = [
     'coq/Sem/RInst.v: multiplier equality in + - is not decided over R (fail-closed); decided over Q in the correspondence',
     'coq/Vec/QRInst.v + coq/Sem/QInst.v: rationals rounded to 220 bits per operation, qsqrt/qsin (correspondence only)',
     'tools/harness/c08_impl.py, tools/harness/kernels_impl.py, lib/kcorr.py (exact serialisation of operands/results)',
+    'graph entry points (graph.tof.elastic_Q_vec / elastic_hkl through scipp transform_coords) are exercised, not modelled: the statement is '
+    'evaluated on their results in props/C08.py (exact rational arithmetic), scipp\'s transform_coords is trusted to call the nodes of the graph',
 ]
 ASSUMPTIONS = [
     'theorems are over exact reals, non-zero beams, positive wavelength, det(R*UB) <> 0; R need not be a rotation',
@@ -517,13 +519,17 @@ def statement_checks(ctx, groups, res, found):
                                   f'2 pi R UB hkl - Q = {d["residual"]} exceeds 64 kappa u |Q| = {d["bound"]} (kappa_inf = {float(kap):.3g})',
                                   {'case': d, 'group': g})
                     found.append(d)
-                if ok(r, 'hkl_el') and ok(r, 'rejoined'):
+                if ok(r, 'hkl_el'):
                     he = [r['hkl_el']['dict'][c]['values'][k] for c in ('h', 'k', 'l')]
-                    us = [r['hkl_el']['dict'][c].get('unit') for c in ('h', 'k', 'l')] + [r['rejoined'].get('unit')]
-                    if ([tuple(c) for c in he] != [tuple(c) for c in hv] or [tuple(c) for c in r['rejoined']['values'][k]] != [tuple(c) for c in hv]
+                    us = [r['hkl_el']['dict'][c].get('unit') for c in ('h', 'k', 'l')]
+                    rj = list(hv)
+                    if ok(r, 'rejoined'):
+                        rj = r['rejoined']['values'][k]
+                        us.append(r['rejoined'].get('unit'))
+                    if ([tuple(c) for c in he] != [tuple(c) for c in hv] or [tuple(c) for c in rj] != [tuple(c) for c in hv]
                             or not all(same_unit(u_, r['hkl'].get('unit')) for u_ in us)):
                         d = dict(where, kernel='split/join', hkl=kcorr.fmt(hv), elements=[kcorr.fmt(c) for c in he],
-                                 rejoined=kcorr.fmt(r['rejoined']['values'][k]), hkl_unit=r['hkl']['unit']['name'],
+                                 rejoined=kcorr.fmt(rj), hkl_unit=r['hkl']['unit']['name'],
                                  units=[(u_ or {}).get('name') for u_ in us])
                         ctx.violation('split-join:lossy', f'splitting / joining changed the numbers or the unit: {d}', {'case': d, 'group': g})
                         found.append(d)
@@ -594,6 +600,18 @@ def invariance_checks(ctx, rng, n, found):
     return n_checks
 
 
+GRAPH_CUSTOM = [None, None, 'override-ub', 'override-Q_vec', 'override-hkl', 'clear']
+
+
+def add_graph_specs(groups, rng):
+    """every group is ALSO evaluated through the graph entry points (graph.tof.elastic_Q_vec / elastic_hkl + transform_coords,
+    start 'wavelength' or 'tof' with the wavelength given); afterwards the caller's copies of the returned graphs are
+    modified (a node overridden, the dict cleared): later calls must not see that"""
+    for g in groups:
+        g['graph'] = {'start': rng.choice(['wavelength', 'tof']), 'customise': rng.choice(GRAPH_CUSTOM)}
+    return groups
+
+
 class _Collect:
     """stands in for ctx: collects the violations of one group instead of recording them"""
     def __init__(self):
@@ -603,49 +621,82 @@ class _Collect:
         self.items.append((key, what, replay_obj))
 
 
+class _Prefix:
+    def __init__(self, ctx, prefix, note):
+        self.ctx, self.prefix, self.note = ctx, prefix, note
+
+    def violation(self, key, what, replay_obj, found_input=True):
+        self.ctx.violation(self.prefix + key, self.note + what, replay_obj, found_input)
+
+
+def all_statement_checks(ctx, groups, res, found):
+    """the statement on the kernels' results and on the results obtained through the graph entry points"""
+    statement_checks(ctx, groups, res, found)
+    gg, gq, gh = [], [], []
+    for g, r in zip(groups, res['groups']):
+        gr = r.get('graph')
+        if 'operands' not in r or not isinstance(gr, dict):
+            continue
+        gg.append(g)
+        gq.append(dict({k: gr[k] for k in ('Qel', 'Qvec') if k in gr}, operands=r['operands']))
+        rh = dict({k: gr[k] for k in ('UB', 'hkl', 'hkl_el') if k in gr}, operands=r['operands'])
+        if 'Qvec_of_hkl_graph' in gr:
+            rh['Qvec'] = gr['Qvec_of_hkl_graph']
+        gh.append(rh)
+    if gg:
+        statement_checks(_Prefix(ctx, 'graph:', 'through conversion.graph.tof.elastic_Q_vec + transform_coords: '), gg, {'groups': gq}, found)
+        statement_checks(_Prefix(ctx, 'graph:', 'through conversion.graph.tof.elastic_hkl + transform_coords: '), gg, {'groups': gh}, found)
+
+
 def keys_of(groups, res, only_id=None):
     c = _Collect()
     for g, r in zip(groups, res['groups']):
         if only_id is None or g['id'] == only_id:
-            statement_checks(c, [g], {'groups': [r]}, [])
+            all_statement_checks(c, [g], {'groups': [r]}, [])
     return {k for k, _, _ in c.items}
 
 
-def history_checks(ctx, order, by_hist, res_groups, found):
-    """the property statement on every step of every call history; a failing step is re-run (a) alone in a fresh process
-    and (b) as the end of its own history in a fresh process, so that the report says whether the failure depends on
-    the calls made before and carries the shortest sequence that reproduces it"""
+def history_checks(ctx, executed, res_groups, by_hist, found):
+    """the property statement on every executed group / step of a call history, in execution order (kernels and graph entry
+    points); a failing one is re-run (a) alone in a fresh process and (b) after its predecessors (its own history, or the
+    group executed before it; else everything executed before it) in a fresh process, so that the report says whether the
+    failure depends on the calls made before and carries a short sequence that reproduces it"""
     seen, indep = set(), {}
     n_steps = 0
-    for i, (g, r) in enumerate(zip(order, res_groups)):
+    for i, (g, r) in enumerate(zip(executed, res_groups)):
         if 'operands' not in r:
             continue
-        n_steps += 1
+        n_steps += 'hist' in g
         c = _Collect()
         f = []
-        statement_checks(c, [g], {'groups': [r]}, f)
-        for (key, what, obj), d in zip(c.items, f + [None] * len(c.items)):
-            # one report per key and kind; a key seen to fail on its own is examined on up to 3 further steps, so that a
+        all_statement_checks(c, [g], {'groups': [r]}, f)
+        for (key, what, obj), d in zip(c.items, f):
+            # one report per key and kind; a key seen to fail on its own is examined on up to 3 further groups, so that a
             # history-dependent failure of the same class is not hidden behind a history-independent one
             if key in seen or indep.get(key, 0) >= 4:
                 continue
-            found.append(d if d is not None else obj)
+            found.append(d)
             alone = ctx.run_impl('c08_impl.py', {'groups': [g]})
             if key in keys_of([g], alone):
                 indep[key] = indep.get(key, 0) + 1
                 ctx.violation(key, what, obj)           # fails on its own: not a matter of history
                 continue
             seen.add(key)
-            seq = by_hist[g['hist']][:g['step'] + 1]
-            if key not in keys_of(seq, ctx.run_impl('c08_impl.py', {'groups': seq}), only_id=g['id']):
-                seq = order[:i + 1]                     # needs the calls of the interleaved history as well
+            short = by_hist[g['hist']][:g['step'] + 1] if 'hist' in g else executed[max(0, i - 1):i + 1]
+            seq = executed[:i + 1]
+            if len(short) < len(seq) and key in keys_of(short, ctx.run_impl('c08_impl.py', {'groups': short}), only_id=g['id']):
+                seq = short
             prev = seq[-2] if len(seq) > 1 else None
+            if 'hist' in g:
+                which = (f'step {g["step"]} of call history {g["hist"]} (same numbers as the earlier steps; this step changed {g["changed"]}; '
+                         f'configuration {g["config"]}; graph entry points {g.get("graph")})')
+            else:
+                which = f'group {g["id"]} evaluated after group {prev and prev["id"]} (whose graph spec was {prev and prev.get("graph")})'
             ctx.violation('history:' + key,
-                          f'the result depends on the calls made before it in the same process: step {g["step"]} of call history {g["hist"]} '
-                          f'(same numbers as the earlier steps; this step changed {g["changed"]}; configuration {g["config"]}) violates the '
-                          f'property although the same call made first in a fresh process satisfies it. {what}',
+                          f'the result depends on the calls made before it in the same process: {which} violates the property although '
+                          f'the same call made first in a fresh process satisfies it. {what}',
                           {'case': obj.get('case'), 'history': seq, 'failing_step': len(seq) - 1,
-                           'previous_step_config': prev and prev.get('config')})
+                           'previous_step': prev and {'config': prev.get('config'), 'graph': prev.get('graph')}})
     return n_steps
 
 
@@ -662,7 +713,9 @@ def correspondence(ctx):
     # call histories, executed in the same process AFTER the independent groups (their ids start at HIST_ID0)
     hrng = random.Random(ctx.seed * 7919 + 5)
     order, by_hist = gen_histories(hrng, 8 if quick else 40, 7 if quick else 10)
+    add_graph_specs(groups + order, hrng)
     res = ctx.run_impl('c08_impl.py', {'groups': groups + order})
+    all_res = res['groups']
     hres = res['groups'][len(groups):]
     res = dict(res, groups=res['groups'][:len(groups)])
     terms, descs = [], []
@@ -698,8 +751,7 @@ def correspondence(ctx):
         ctx.violation(f'{d["kernel"].split(" ")[0]}:{why.split(":")[0]}',
                       f'{d["kernel"]}: implementation differs from the model / defining algebra ({why}) on {d}', rp)
     found = []
-    statement_checks(ctx, groups, res, found)
-    n_hist_steps = history_checks(ctx, order, by_hist, hres, found)
+    n_hist_steps = history_checks(ctx, groups + order, all_res, by_hist, found)
     n_inv = invariance_checks(ctx, rng, 8 if quick else 120, found)
     if mutated:
         ctx.note(f'{mutated} groups had an operand modified by a call (C09 covers this)')
@@ -724,9 +776,15 @@ def correspondence(ctx):
                 'per-pixel wavelength and R, 2 or 3 pixels), storage (rotation3 / matrix) and Q source; consecutive steps differ in one '
                 '(15%: two) axes, 15% of the steps repeat an earlier step exactly, half of the histories run interleaved in pairs; all five '
                 'kernels are called on every step and every step is compared with the model (first pixel) and with the statement (all pixels, '
-                'value and unit)',
+                'value and unit); every group and step is ALSO evaluated through the graph entry points graph.tof.elastic_Q_vec / elastic_hkl '
+                '(start wavelength or tof) + transform_coords and the statement evaluated on those results, after which the caller\'s copies of '
+                'the returned graphs are modified (ub_matrix / Q_vec / hkl_vec node overridden, dict cleared; 1/3 left alone); a failing '
+                'group is re-run alone and after its predecessors in fresh processes',
         'samples': descs[:2] + descs[n_plain // 2:n_plain // 2 + 2] + descs[n_plain:n_plain + 1] + descs[-1:],
         'per_kernel': kinds, 'kappa_targets': kaps, 'invariance_checks': n_inv,
+        'graph_entry_points': {'groups': sum(1 for r in all_res if isinstance(r.get('graph'), dict)),
+                               'customisations': {str(k): sum(1 for g in groups + order if g['graph']['customise'] == k) for k in set(GRAPH_CUSTOM)},
+                               'start': {k: sum(1 for g in groups + order if g['graph']['start'] == k) for k in ('wavelength', 'tof')}},
         'call_histories': {'histories': len(by_hist), 'steps': n_hist_steps, 'coq_cases': len(terms) - n_plain, 'axis_changes': axes,
                            'exact_repeats': sum(1 for g in order if g['changed'] == ['repeat-of-earlier-step'])},
         'disagreements': len(fails), 'tolerance': {'Q_abs_in_units_of_2pi_over_lambda': 2e-15, 'norm_vs_scalar_Q': 1e-13, 'hkl': '64*kappa_inf*2^-53'},
@@ -741,11 +799,9 @@ def search(ctx, broken):
     found = []
     order, by_hist = gen_histories(rng, 24, 10)
     groups = gen_groups(rng, 40)
+    add_graph_specs(groups + order, rng)
     res = ctx.run_impl('c08_impl.py', {'groups': groups + order})
-    hres = res['groups'][len(groups):]
-    res = dict(res, groups=res['groups'][:len(groups)])
-    statement_checks(ctx, groups, res, found)
-    history_checks(ctx, order, by_hist, hres, found)
+    history_checks(ctx, groups + order, res['groups'], by_hist, found)
     invariance_checks(ctx, rng, 8, found)
     return found
 
@@ -773,7 +829,7 @@ def replay(ctx, obj):
                     v = r[key]
                     print('  ', key, '->', 'raises ' + v['error'] if 'error' in v else (kcorr.fmt(v['values'][0]), (v.get('unit') or {}).get('name')))
             f = []
-            statement_checks(PH, [g], {'groups': [r]}, f)
+            all_statement_checks(PH, [g], {'groups': [r]}, f)
             n_bad += len(f)
         if not n_bad:
             print('the defining relations hold on every step of this history')
@@ -822,7 +878,7 @@ def replay(ctx, obj):
         @staticmethod
         def violation(key, what, replay_obj, found_input=True):
             print('STILL VIOLATED:', key, '::', what[:400])
-    statement_checks(P, [g], res, found)
+    all_statement_checks(P, [g], res, found)
     if not found:
         print('the defining relations (Q = 2pi/lambda (e_i - e_f), |Q| = scalar Q, 2 pi R UB hkl = Q within 64 kappa u, UB = U*B, split/join exact) hold on this input')
     return 0
